@@ -198,6 +198,9 @@ func (s *sched) exec(g *G, r *request) (rep reply, blocked bool) {
 		if w.n == 0 {
 			for _, x := range w.waiters {
 				s.wakeG(x, reply{})
+				// like the runtime, a woken waiter re-reads the state when it resumes and
+				// panics if the group has been reused in the meantime
+				x.wgCheck = w
 			}
 			w.waiters = nil
 		}
